@@ -45,6 +45,16 @@ func universeTables(name string) (addrs, slots []felt.Felt) {
 		}
 		return addrs, slots
 	}
+	if strings.HasPrefix(name, "tail-") {
+		// one address X (hex after the dash) and the address right above it; the same two numbers as
+		// slots: every trailing byte pattern the key-range helper may mishandle gets a pair
+		x, err := new(felt.Felt).SetString("0x" + strings.TrimPrefix(name, "tail-"))
+		if err != nil {
+			panic("universe " + name + ": " + err.Error())
+		}
+		y := new(felt.Felt).Add(x, lib.F(1))
+		return []felt.Felt{*lib.F(1), *lib.F(2), *x, *y}, []felt.Felt{*lib.F(0), *lib.F(1), *x, *y}
+	}
 	if name == "wide" {
 		// more contracts than the worker pools of State.commit / updateContractStorages have goroutines
 		// (runtime.GOMAXPROCS(0)); two slots each
